@@ -21,7 +21,7 @@ pub mod format {
     use crate::token::DATALOG_3_3;
     use crate::spec::*;
     use self::convert::*;
-    broadcast use crate::error::qm_axioms;
+    broadcast use {crate::error::qm_axioms, crate::verif_std::ax_u32_iter_max, crate::verif_std::ax_u32_iter_last};
 
     pub mod schema {
         use vstd::prelude::*;
@@ -240,7 +240,7 @@ pub mod format {
         //@end
 
         //@extract biscuit-auth/src/format/mod.rs :: impl SerializedBiscuit :: fn new
-        //@ abstract_arg block_signature_version 4 :: crate::verif_std::VerifOpaqueIter::new()
+        //@ abstract_arg block_signature_version 4 :: @iter_seq
         //@ requires wf: next_keypair.wf()
         //@ ensures chain: r is Ok ==> chain_valid(r->Ok_0, kp_public(*root_keypair), false)
         //@ ensures shape: r is Ok ==> r->Ok_0.blocks@.len() == 0 && r->Ok_0.root_key_id == root_key_id && r->Ok_0.proof == TokenNext::Secret(kp_private(*next_keypair)) && r->Ok_0.authority.external_signature is None && r->Ok_0.authority.next_key == kp_public(*next_keypair)
@@ -257,8 +257,10 @@ pub mod format {
         //@end
 
         //@extract biscuit-auth/src/format/mod.rs :: impl SerializedBiscuit :: fn append
-        //@ abstract_arg block_signature_version 4 :: crate::verif_std::VerifOpaqueIter::new()
+        //@ abstract_arg block_signature_version 4 :: @iter_seq
         //@ requires wf: next_keypair.wf()
+        //@ ensures v1_sticky: r is Ok && (self.authority.version >= 1 || exists|i: int| 0 <= i < self.blocks@.len() && (#[trigger] self.blocks@[i]).version >= 1) ==> last_block(r->Ok_0).version >= 1
+        //@ ghost before "let signature = crypto" :: proof { lemma_versions_cover(verif_iter_seq, self.authority, self.blocks@); }
         //@ ensures sealed: self.proof is Seal ==> r == Err::<SerializedBiscuit, error::Token>(error::Token::AlreadySealed)
         //@ ensures frame: r is Ok ==> appended(*self, r->Ok_0) && r->Ok_0.proof == TokenNext::Secret(kp_private(*next_keypair)) && last_block(r->Ok_0).next_key == kp_public(*next_keypair) && last_block(r->Ok_0).external_signature == external_signature && (external_signature is Some ==> last_block(r->Ok_0).version == 1)
         //@ ensures data: r is Ok ==> last_block(r->Ok_0).data@ == schema::block_wire_encode(convert::proto_of(*block))
@@ -272,8 +274,10 @@ pub mod format {
         //@end
 
         //@extract biscuit-auth/src/format/mod.rs :: impl SerializedBiscuit :: fn append_serialized
-        //@ abstract_arg block_signature_version 4 :: crate::verif_std::VerifOpaqueIter::new()
+        //@ abstract_arg block_signature_version 4 :: @iter_seq
         //@ requires wf: next_keypair.wf()
+        //@ ensures v1_sticky: r is Ok && (self.authority.version >= 1 || exists|i: int| 0 <= i < self.blocks@.len() && (#[trigger] self.blocks@[i]).version >= 1) ==> last_block(r->Ok_0).version >= 1
+        //@ ghost before "let signature = crypto" :: proof { lemma_versions_cover(verif_iter_seq, self.authority, self.blocks@); }
         //@ ensures sealed: self.proof is Seal ==> r == Err::<SerializedBiscuit, error::Token>(error::Token::AlreadySealed)
         //@ ensures frame: r is Ok ==> appended(*self, r->Ok_0) && r->Ok_0.proof == TokenNext::Secret(kp_private(*next_keypair)) && last_block(r->Ok_0).next_key == kp_public(*next_keypair) && last_block(r->Ok_0).external_signature == external_signature && last_block(r->Ok_0).data@ == block@ && (external_signature is Some ==> last_block(r->Ok_0).version == 1)
         //@ ensures chain: r is Ok && chain_tail_valid(*self, false) && ext_ok(last_block(r->Ok_0), last_block(*self).next_key, last_block(*self).signature, false) ==> chain_tail_valid(r->Ok_0, false)
@@ -294,6 +298,30 @@ pub mod format {
         //@end
     }
 
+    // the two orders in which the source enumerates the versions of the existing blocks (authority last / authority first):
+    // for either, the maximum is at least the version of the authority block and of every block. A pipeline of another
+    // shape learns nothing here, and the clause v1_sticky of its function then fails.
+    pub proof fn lemma_versions_cover(vs: Seq<u32>, authority: crypto::Block, blocks: Seq<crypto::Block>)
+        ensures (vs =~= Seq::new((blocks + seq![authority]).len(), |i: int| (blocks + seq![authority])[i].version)
+                 || vs =~= seq![authority.version] + Seq::new(blocks.len(), |i: int| blocks[i].version))
+                ==> crate::verif_std::seq_max_opt(vs) is Some && authority.version <= crate::verif_std::seq_max_opt(vs)->Some_0
+                    && forall|i: int| 0 <= i < blocks.len() ==> (#[trigger] blocks[i]).version <= crate::verif_std::seq_max_opt(vs)->Some_0
+    {
+        let a = Seq::new((blocks + seq![authority]).len(), |i: int| (blocks + seq![authority])[i].version);
+        let b = seq![authority.version] + Seq::new(blocks.len(), |i: int| blocks[i].version);
+        if vs =~= a {
+            crate::verif_std::lemma_seq_max_ge(vs, blocks.len() as int);
+            assert forall|i: int| 0 <= i < blocks.len() implies (#[trigger] blocks[i]).version <= crate::verif_std::seq_max_opt(vs)->Some_0 by {
+                crate::verif_std::lemma_seq_max_ge(vs, i);
+            }
+        } else if vs =~= b {
+            crate::verif_std::lemma_seq_max_ge(vs, 0);
+            assert forall|i: int| 0 <= i < blocks.len() implies (#[trigger] blocks[i]).version <= crate::verif_std::seq_max_opt(vs)->Some_0 by {
+                crate::verif_std::lemma_seq_max_ge(vs, i + 1);
+            }
+        }
+    }
+
     //@extract biscuit-auth/src/format/mod.rs :: fn block_signature_version
     //@ sub previous_blocks_sig_versions\.(max|min|last)\(\) => crate::verif_std::verif_iter_\1(previous_blocks_sig_versions)
     //@ ensures third_party: external_signature is Some ==> r == 1
@@ -308,6 +336,7 @@ pub mod format {
 //@canary tp-version-gate :: format::SerializedBiscuit::deserialize :: && block.version != Some(THIRD_PARTY_SIGNATURE_VERSION) ==>> && false
 //@canary append-prev :: format::SerializedBiscuit::append :: &self.last_block().signature, ==>> &self.authority.signature,
 //@canary seal-drops-blocks :: format::SerializedBiscuit::seal :: blocks: self.blocks.clone(), ==>> blocks: Vec::new(),
+//@canary append-versions-skip-authority :: format::SerializedBiscuit::append :: .chain([&self.authority]) ==>> 
 //@canary sigversion-third-party :: format::block_signature_version :: if external_signature.is_some() { ==>> if false {
 //@canary sigversion-no-max :: format::block_signature_version :: previous_blocks_sig_versions.max().unwrap_or(0) ==>> previous_blocks_sig_versions.max().map(|_| 0).unwrap_or(0)
 //@canary-requires format::SerializedBiscuit::new_inner
